@@ -31,7 +31,7 @@ typedef Eigen::Matrix<long double, Eigen::Dynamic, 1> LVec;
 
 struct SpectraVerifAccess {
     static Sp& X(Solver& s) { return s.X; }
-    static Sp& A(Solver& s) { return s.A; }
+    static Sp A(Solver& s) { return Sp(s.A); }       // by value: whatever the member's type (value, reference, Eigen::Ref), this is the matrix the solver uses now
     static Sp& B(Solver& s) { return s.m_B; }
     static Sp& T(Solver& s) { return s.m_preconditioner; }
     static bool withT(Solver& s) { return s.flag_with_preconditioner; }
@@ -67,7 +67,7 @@ struct Trace {
 static void shadow_compute(Solver& s, int maxit, double tol_div_n, Trace& tr) {
     using namespace Spectra;
     const int m_n = Acc::n(s), m_nev = Acc::nev(s);
-    Sp& X = Acc::X(s); Sp& A = Acc::A(s); Sp& m_B = Acc::B(s);
+    Sp& X = Acc::X(s); const Sp A = Acc::A(s); Sp& m_B = Acc::B(s);
     s.m_info = Eigen::NoConvergence;
     double tolerance_L2 = tol_div_n * m_n;
     int BlockSize;
@@ -480,6 +480,27 @@ static void oracle(const Case& c, int maxit, Out& out) {
     judge(c, maxit, o, out, [&](const std::string& e) { return case_json(c, maxit, e); });
 }
 
+// the caller's matrices after construction / after the setters: the solver works on the problem it was GIVEN.  The caller overwrites its
+// A (and B, T) in place, or lets them go out of scope, before compute(); the result must be bit-identical to a twin whose caller keeps
+// them untouched (a solver that only keeps a reference / Ref to the caller's storage computes on the wrong matrix, or on freed memory)
+static void oracle_lifetime(const Case& c, int maxit, Out& out) {
+    std::unique_ptr<Solver> twin(make(c)); bool tthrew = false; try { twin->compute(maxit, c.tol); } catch (std::exception&) { tthrew = true; }
+    Obs ot = observe(*twin); ot.threw = tthrew;
+    std::unique_ptr<Sp> As(new Sp(c.A.sparseView())), Xs(new Sp(c.X0.sparseView())), Bs(new Sp(c.B.sparseView())), Ts(new Sp(c.T.sparseView()));
+    std::unique_ptr<Solver> s(new Solver(*As, *Xs));
+    if (c.withB) s->setB(*Bs);
+    if (c.withT) s->setPreconditioner(*Ts);
+    // in place, no reallocation: every stored coefficient is changed
+    for (Sp* M : {As.get(), Xs.get(), Bs.get(), Ts.get()}) { double* v = M->valuePtr(); for (Eigen::Index i = 0; i < M->nonZeros(); i++) v[i] = 2.5 * v[i] + 3.0; }
+    if ((c.n + c.k) % 2) { As.reset(); Bs.reset(); Ts.reset(); Xs.reset(); }     // ... or the caller's objects are gone altogether
+    bool threw = false; try { s->compute(maxit, c.tol); } catch (std::exception&) { threw = true; }
+    Obs o = observe(*s); o.threw = threw;
+    out.count("oracle_lifetime_runs");
+    if (!same_obs(o, ot))
+        out.fail("caller-storage", "LOBPCGSolver: the result of compute() changes when the caller overwrites (or destroys) its own A / B / preconditioner / X objects after handing them to the constructor and the setters (n=" + str(c.n) + ", k=" + str(c.k) + "): the solver does not work on the problem it was given",
+                 case_json(c, maxit, ",\"scenario\":\"caller-lifetime\",\"pred\":\"caller-storage\""));
+}
+
 // a second compute() on the same object with a tolerance it cannot reach in one iteration: the status must say so
 static void oracle_second(const Case& c, int maxit, Out& out) {
     std::unique_ptr<Solver> s(make(c));
@@ -711,7 +732,7 @@ int main(int argc, char** argv) {
                 std::cerr << "cut " << j << " info " << o.info << " threw " << o.threw << " xbx " << (double) maxabs(X.transpose() * B * X - LMat::Identity(c.k, c.k)) << " evecs " << o.evecs.rows() << "x" << o.evecs.cols() << " rnorm";
                 for (int q = 0; q < o.resid.cols(); q++) std::cerr << " " << o.resid.col(q).norm(); std::cerr << "\n"; }
         }
-        oracle(c, maxit, out); oracle_second(c, maxit, out); corr_case(c, out);
+        oracle(c, maxit, out); oracle_second(c, maxit, out); oracle_lifetime(c, maxit, out); corr_case(c, out);
         out.finish(); return out.nfail ? 1 : 0;
     }
     int ncases = a.thorough() ? 360 : 36;
@@ -722,6 +743,7 @@ int main(int argc, char** argv) {
         corr_case(c, out);
         oracle(c, c.n, out);              // max_iter = min(n, maxit): the longest run the code allows
         if (idx % 3 == 0) oracle_second(c, c.n, out);
+        if (idx % 2 == 0) oracle_lifetime(c, c.n, out);
     }
     // ---- preconditioner stream: Jacobi, a poor diagonal SPD and a poor tridiagonal SPD preconditioner (correspondence + oracle)
     for (int q = 0; q < (a.thorough() ? 72 : 9); q++) {
